@@ -79,6 +79,23 @@ func checkC19(c *Ctx) error {
 			}
 		}
 	}
+	// a process that may hold few files open (containers and CI runners set such limits): the own configuration is seven files
+	for _, limit := range []int{10, 16} {
+		out := filepath.Join(w.TempDir("c19u"), "gontainer.go")
+		sh := append([]string{"-c", fmt.Sprintf(`ulimit -n %d || exit 97; exec "$0" "$@"`, limit), bin}, selfArgs(out, false)...)
+		run := cli.Do(w, "/bin/bash", nil, w.Repo, out, sh...)
+		if run.Res.Exit == 97 {
+			c.Add("open_file_limit_runs_skipped", 1)
+			continue
+		}
+		c.Eval(fmt.Sprintf("open-file-limit-%d", limit), true)
+		got, _ := os.ReadFile(out)
+		if run.Res.Exit != 0 {
+			c.Violate("selfcompile-fails-under-an-open-file-limit", fmt.Sprintf("with at most %d open files the tool does not regenerate its own container (7 input files):\n%s\n%s", limit, run.Res.Stdout, run.Res.Stderr), nil)
+		} else if normGen(got) != want {
+			c.Violate("differs-under-an-open-file-limit", fmt.Sprintf("with at most %d open files the regenerated container differs\n%s", limit, firstDiff(want, normGen(got))), map[string]string{"regenerated.go": string(got)})
+		}
+	}
 	for g := 0; g < gens; g++ {
 		var last []byte
 		for r := 0; r < reps; r++ {
